@@ -51,3 +51,14 @@ Theorem C12_accumulate_is_its_loop : forall f t,
     t_score t = zsum (map t_score ts).
 Proof. exact accumulate_is_loop. Qed.
 Print Assumptions C12_accumulate_is_its_loop.
+
+(* ---- non-vacuity: concrete non-trivial programs and traces meeting the hypotheses above (proofs/GFIWitness.v) ---- *)
+From Proofs Require Import GFIWitness.
+Example C12_hypotheses_met :
+  (wft ex_scan (tr_of ex_scan ex_scan_a) /\ length (t_choices (tr_of ex_scan ex_scan_a)) = 3%nat) /\
+  (let t := tr_of (g_iterate 3 ex_step) [VZ 2] in wft (g_iterate 3 ex_step) t /\ length (t_choices t) = 3%nat) /\
+  (let t := tr_of (g_iterate_final 3 ex_step) [VZ 2] in wft (g_iterate_final 3 ex_step) t /\ length (t_choices t) = 3%nat) /\
+  (let t := tr_of (g_accumulate ex_step2) ex_scan_a in wft (g_accumulate ex_step2) t /\ length (t_choices t) = 3%nat) /\
+  (let t := tr_of (g_reduce ex_step2) ex_scan_a in wft (g_reduce ex_step2) t /\ length (t_choices t) = 3%nat).
+Proof. exact (conj ex_scan_wft (conj ex_iterate_wft (conj ex_iterate_final_wft (conj ex_accumulate_wft ex_reduce_wft)))). Qed.
+Print Assumptions C12_hypotheses_met.
